@@ -547,6 +547,16 @@ func cleanupFilePos(tfile *token.File, cl engine.Changelog, comments []*ast.Comm
 		}
 	}
 
+	// A line that is followed by a comment which stays is not merged into
+	// it: the comment would end up behind the code of that line, a doc
+	// comment would become the end-of-line comment of the declaration
+	// before.
+	for _, cg := range comments {
+		for _, c := range cg.List {
+			delete(linesToDelete, tfile.PositionFor(c.Pos(), false).Line-1)
+		}
+	}
+
 	lines := make([]int, 0, len(linesToDelete))
 	for i := range linesToDelete {
 		lines = append(lines, i)
